@@ -20,6 +20,10 @@ def run_block(relpath, qualname, selector, env):
     mod = importlib.import_module(relpath[:-3].replace('/', '.'))
     is_gen = any(isinstance(n, (ast.Yield, ast.YieldFrom)) for st in stmts for n in ast.walk(st))
     names = sorted(env)
+    has_loop_ctl = any(isinstance(n, (ast.Continue, ast.Break)) for st in stmts for n in ast.walk(st))
+    if has_loop_ctl:
+        stmts = [ast.For(target=ast.Name(id='__once__', ctx=ast.Store()), iter=ast.Tuple(elts=[ast.Constant(0)], ctx=ast.Load()),
+                         body=list(stmts), orelse=[], type_comment=None)]
     body = [ast.Try(body=list(stmts),
                     handlers=[],
                     orelse=[],
